@@ -1,0 +1,39 @@
+//go:build verif
+
+package risc
+
+// verifHooks carries the loop-iteration budget and the per-iteration observer
+// used by the verification harness (build tag verif).
+type verifHooks struct {
+	budget int64
+	ticks  int64
+	onTick func(cycle int)
+}
+
+// VerifBudgetExceeded is the panic value raised by VerifTick once the armed
+// budget of loop iterations is used up.
+type VerifBudgetExceeded struct {
+	Ticks int64
+}
+
+// VerifArm sets a budget of loop iterations (0 = unlimited) and an optional
+// observer called on every iteration.
+func (ctx *Context) VerifArm(budget int64, onTick func(cycle int)) {
+	ctx.verif = verifHooks{budget: budget, onTick: onTick}
+}
+
+// VerifTicks returns the number of loop iterations seen since VerifArm.
+func (ctx *Context) VerifTicks() int64 {
+	return ctx.verif.ticks
+}
+
+// VerifTick is called once per iteration of every loop of every Run.
+func (ctx *Context) VerifTick(cycle int) {
+	ctx.verif.ticks++
+	if ctx.verif.onTick != nil {
+		ctx.verif.onTick(cycle)
+	}
+	if ctx.verif.budget > 0 && ctx.verif.ticks > ctx.verif.budget {
+		panic(VerifBudgetExceeded{Ticks: ctx.verif.ticks})
+	}
+}
